@@ -128,7 +128,7 @@ func c06ReleaseOrder(a *Anchors, r *core.Report) {
 // path: a terminated meta process does not stay addressable.
 func c06MetaRelease(a *Anchors, r *core.Report) {
 	rule := "C06.G3m meta-release"
-	r.Floor(rule, 4)
+	r.Floor(rule, 1)
 	mc := metaClassify(a)
 	for _, f := range funcsOfPkgs(a.P, "node") {
 		if len(f.Blocks) == 0 {
